@@ -61,6 +61,9 @@ def gen(ctx):
         "o1,100000,0 q o3,100000,0 o5,2048,0 q w3,2147418112 q s65536 q",
         "o1,100000,0 q o3,100000,0 q w3,2147418111 q s65536 q w0,1000000 q",
         "o1,100000,0 q o3,100000,0 q w3,2147418112 q s65535 q s65534 q w0,1000000 q",
+        # scheduler order: incremental streams come before non-incremental ones of the same urgency
+        "o1,65537,0 q o3,200000,0 q o5,200000,0 q o7,65536,1 q w0,35 q w0,16384 q",
+        "o1,65536,0 o3,100000,1 o5,100000,0 o7,100000,1 q w0,20000 q w0,20000 q w0,1000000 q",
         # WINDOW_UPDATE on an idle stream (never opened) is a connection error; on a retired one it is ignored
         "o1,2048,0 q w5,100 q",
         "o1,2048,0 q w1,100 q o3,100000,0 q w0,100000 w3,100000 q",
@@ -129,12 +132,26 @@ def run_scenario(port, line, expect):
     verdict = None
     prev = {}
     batch = b""
+    # second independent oracle (RFC 9113 6.9, 6.9.1, 6.9.2 read from the client's side): which errors the
+    # client's own frames of this step mandate, given the windows as the client knows them at the last
+    # quiescence point (credit granted minus DATA received)
+    M = 0x7fffffff
+    ended = set()             # streams whose END_STREAM / RST the client has seen
+    want_go = None            # GOAWAY code mandated by this step (first one wins)
+    want_rst = {}             # sid -> code mandated by this step
+    seen_rst = set()
+    win = {}                  # sid -> window as the client knows it (0 = connection)
     try:
         c.pump(0.3, until=lambda f: any(x[0] == 4 and not (x[1] & 1) for x in f))
         for ev in evs:
             k, args = ev[0], [int(x) for x in ev[1:].split(",")] if len(ev) > 1 else []
+            if not win:
+                win[0] = granted[0] - sum(prev.values())
+                for sid0 in opened:
+                    win[sid0] = granted[sid0] - prev.get(sid0, 0)
             if k == "o":
                 sid, size, inc = args
+                win[sid] = client_init
                 extra = [("priority", "u=3, i")] if inc else []
                 batch += c.headers_frame(sid, [(":method", "GET"), (":scheme", "http"),
                                                (":path", "/f%d.bin" % size), (":authority", "localhost")] + extra)
@@ -142,12 +159,40 @@ def run_scenario(port, line, expect):
                 opened[sid] = size
             elif k == "s":
                 batch += e2e.h2_settings([(4, args[0])])
+                if want_go is None:
+                    if args[0] > M:
+                        want_go = 3
+                    elif any(sid0 not in ended and sid0 not in want_rst and win[sid0] + args[0] - client_init > M
+                             for sid0 in opened):
+                        want_go = 3          # 6.9.2: a change that overflows any window is a connection error
+                    else:
+                        for sid0 in opened:
+                            win[sid0] += args[0] - client_init
                 if args[0] <= 0x7fffffff:
                     for sid in opened:
                         granted[sid] += args[0] - client_init
                     client_init = args[0]
             elif k == "w":
                 batch += e2e.h2_window_update(args[0], args[1])
+                if want_go is None:
+                    wsid, winc = args
+                    if wsid == 0:
+                        if winc == 0:
+                            want_go = 1
+                        elif win[0] + winc > M:
+                            want_go = 3
+                        else:
+                            win[0] += winc
+                    elif wsid not in opened:
+                        if wsid > max(list(opened) + [0]):
+                            want_go = 1      # 5.1: WINDOW_UPDATE on an idle stream
+                    elif wsid not in ended and wsid not in want_rst:
+                        if winc == 0:
+                            want_rst[wsid] = 1
+                        elif win[wsid] + winc > M:
+                            want_rst[wsid] = 3
+                        else:
+                            win[wsid] += winc
                 if args[0] in granted and 0 < args[1]:
                     granted[args[0]] += args[1]
             elif k == "q":
@@ -189,7 +234,38 @@ def run_scenario(port, line, expect):
                 if sum(t.values()) > sum(prev.values()) and sum(t.values()) > granted[0] and verdict is None:
                     verdict = "connection: %d DATA bytes sent with only %d granted" % (sum(t.values()), granted[0])
                 prev = dict(t)
-                if c.closed:
+                # mandated errors of this step vs. what the server sent
+                got_rst = {sid0: code for sid0, code in rs if sid0 not in seen_rst}
+                if verdict is None:
+                    if want_go is not None and (not go or go[0] != want_go):
+                        verdict = "mandated-error: the client's frames of step %d mandate GOAWAY(%d); server sent %s" % (
+                            qi, want_go, ("GOAWAY(%d)" % go[0]) if go else ("RST_STREAM %s" % sorted(got_rst.items()) if got_rst else "no error"))
+                    elif want_go is None and go and go[0] != 0:
+                        verdict = "mandated-error: GOAWAY(%d) although no frame of step %d is a connection error" % (go[0], qi)
+                    elif want_go is None:
+                        for sid0 in sorted(set(want_rst) | set(got_rst)):
+                            if want_rst.get(sid0) != got_rst.get(sid0):
+                                verdict = "mandated-error: stream %d: step %d mandates %s; server sent %s" % (
+                                    sid0, qi, ("RST_STREAM(%d)" % want_rst[sid0]) if sid0 in want_rst else "no error",
+                                    ("RST_STREAM(%d)" % got_rst[sid0]) if sid0 in got_rst else "no error")
+                                break
+                # a stream stalled although the credit granted covers a sendable amount must have moved
+                if verdict is None and not go:
+                    endf = {f[2] for f in c.frames if f[0] in (0, 1) and f[1] & 1} | {x[0] for x in rs}
+                    cw = granted[0] - sum(t.values())
+                    for sid0, size0 in opened.items():
+                        if sid0 in endf or sid0 in want_rst:
+                            continue
+                        rem = size0 - t.get(sid0, 0)
+                        sw = granted[sid0] - t.get(sid0, 0)
+                        if rem > 0 and min(sw, cw) >= min(rem, 2048) and min(sw, cw) > 0:
+                            verdict = ("progress: stream %d stalled with %d octets to go although the client has granted "
+                                       "%d on the stream and %d on the connection" % (sid0, rem, sw, cw))
+                            break
+                ended |= {f[2] for f in c.frames if f[0] in (0, 1) and f[1] & 1} | {x[0] for x in rs}
+                seen_rst |= set(got_rst)
+                want_go, want_rst, win = None, {}, {}
+                if c.closed or go:
                     break
     finally:
         c.close()
@@ -355,7 +431,8 @@ def run(ctx):
                             "err" if any(s["goaway"] or s["rsts"] for s in exp) else "ok")
         ctx.keys[key + ":n%d" % min(len(cm), 4)] += 1
         if verdict:
-            ctx.violation("oracle:h2-flow:overdraft", verdict,
+            ctx.violation("oracle:h2-flow:" + ("overdraft" if "granted" in verdict and not verdict.startswith(("mandated", "progress"))
+                                               else verdict.split(":")[0]), verdict,
                           {"property": ctx.pid, "kind": "property-oracle", "correspondence": "e2e-h2-flow",
                            "input": line, "impl_obs": obs, "model_obs": cm, "oracle_verdict": verdict}, found=True)
         if obs != cm[:len(obs)] or (len(obs) < len(cm) and not any(o["goaway"] for o in obs)):
